@@ -234,8 +234,11 @@ def main():
                 continue
             reals = [("fb", graphreal.realise_fb(g)), ("struct", graphreal.realise_struct(g)), ("struct+alias", graphreal.realise_struct(g, alias=True)),
                      ("mixed", graphreal.realise_mixed(g, 1))]
+            reals.append(("struct+alias-aliases-twice", graphreal.realise_struct(g, alias=True, aliases_twice=True)))
             if all(len(graphreal.outs(g, i)) <= 1 for i in range(1, g["n"] + 1)):
                 reals.append(("enum-alias", graphreal.realise_enum_alias(g)))
+                reals.append(("enum-alias-aliases-twice", graphreal.realise_enum_alias(g, aliases_twice=True)))
+                reals.append(("enum-alias-qualified", graphreal.realise_enum_alias(g, qualified=True)))
             for kind, text in reals:
                 inputs.append(("graph:%s:%s:n=%d" % (g.get("shape", "-"), kind, g["n"]), text))
                 inputs.append(("graph-twice:%s:%s:n=%d" % (g.get("shape", "-"), kind, g["n"]), graphreal.twice(text)))
